@@ -11,8 +11,11 @@ W32_PORTABLE = LibCfg(name="w32-bytewise-neutral", defs=["SKINNY_VERIF_64BIT=0",
                                                          "SKINNY_VERIF_VEC128_MATH=0", "SKINNY_VERIF_VEC256_MATH=0"])
 W32_LE = LibCfg(name="w32", defs=["SKINNY_VERIF_64BIT=0"])
 
+CLANG_SHIPPED = LibCfg(name="clang-O3", cc="clang")      # same flags, other compiler: unspecified evaluation order, other code generation
+
 def with_portable(name, src, tier, q, t, shards=16):
-    return [Unit(name, src, SHIPPED, cases=scale(tier, q, t), shards=shards - 4),
+    return [Unit(name, src, SHIPPED, cases=scale(tier, q, t), shards=shards - 6),
+            Unit(name + "-clang", src, CLANG_SHIPPED, cases=scale(tier, q, t), shards=2 if tier == "quick" else 8),
             Unit(name + "-w32", src, W32_LE, cases=scale(tier, q, t), shards=2 if tier == "quick" else 8),
             Unit(name + "-w32-portable", src, W32_PORTABLE, cases=scale(tier, q, t), shards=2 if tier == "quick" else 8)]
 
@@ -48,7 +51,11 @@ def prop(pid, **kw):
 # ----------------------------------------------------------------------------- C05
 prop("C05",
      fuzz=dict(prop=5, workers=8, seconds=120),
-     units=lambda tier: [Unit("c05", "c05.cpp", SHIPPED, cases=scale(tier, 30000, 500000), shards=16)],
+     units=lambda tier: [Unit("c05", "c05.cpp", SHIPPED, cases=scale(tier, 30000, 500000), shards=14),
+                         Unit("c05-clang", "c05.cpp", CLANG_SHIPPED, cases=scale(tier, 30000, 500000), shards=2 if tier == "quick" else 8),
+                         # requests of >= 65281 blocks in one call plus a continuation (thorough: also > 4 GiB)
+                         Unit("c05-big", "big.cpp", SHIPPED, cases=scale(tier, 40, 120), shards=8 if tier == "quick" else 4,
+                              args=["--family", "ctr"] + (["--huge", "1"] if tier == "thorough" else []), timeout=6000)],
      level="exploration",
      rule=("structured CTR programs (init; optional early set_counter; key/tweak set-up; 1-3 segments of "
            "[set_counter]? chunk*) for Skinny-128/64 plain and tweaked and Mantis-5..8 on every back end, compared "
@@ -74,7 +81,7 @@ prop("C01",
            "skinnyN_set_key + skinnyN_ecb_encrypt/decrypt, compared with the table-driven specification model; keys and "
            "blocks from a mixture of uniform / sparse / constant / counting / high-bit byte strings; non-trivial = key is "
            "neither all-zero nor one of the six published vectors; distinct = distinct serialised cases"),
-     assumptions=MODEL_ASSUME + BUILD_ASSUME + ["besides the shipped build, two builds of the scalar variants (32-bit words; 32-bit words + byte-wise access + byte-order-neutral code, SIMD off) are run against the model; the full configuration matrix is C12's job"],
+     assumptions=MODEL_ASSUME + BUILD_ASSUME + ["besides the shipped build, a clang -O3 build and two builds of the scalar variants (32-bit words; 32-bit words + byte-wise access + byte-order-neutral code, SIMD off) are run against the model; the full configuration matrix is C12's job"],
      technique="property-based testing (rapidcheck): random keys/blocks vs. independent specification model",
      text=("Generated (key, block, variant, direction) cases must equal an independent table-driven SKINNY model that is "
            "itself checked against the six published vectors at start-up. Sampling of a 2^128..2^512 input space; "
@@ -246,7 +253,9 @@ prop("C03",
      design_ref="DESIGN.md#c03")
 
 prop("C07",
-     units=lambda tier: [Unit("c07", "c07.cpp", SHIPPED, cases=scale(tier, 40000, 600000), shards=16)],
+     units=lambda tier: [Unit("c07", "c07.cpp", SHIPPED, cases=scale(tier, 40000, 600000), shards=16),
+                         Unit("c07-big", "big.cpp", SHIPPED, cases=scale(tier, 40, 120), shards=8 if tier == "quick" else 4,
+                              args=["--family", "par"] + (["--huge", "1"] if tier == "thorough" else []), timeout=6000)],
      level="exploration",
      rule=("(cipher, key incl. in-between lengths / Mantis rounds and mode, back end, 1-3 calls with a block count drawn from "
            "0..40, data, Mantis tweak array, in place or not, buffer offsets); oracle = the library's single-block functions "
@@ -269,7 +278,8 @@ def c10_post(cov):
     cov["lengths_not_generated"] = missing[:20]
 
 prop("C10",
-     units=lambda tier: [Unit("c10", "c10.cpp", SHIPPED, cases=scale(tier, 40000, 600000), shards=12),
+     units=lambda tier: [Unit("c10", "c10.cpp", SHIPPED, cases=scale(tier, 40000, 600000), shards=10),
+                         Unit("c10-clang", "c10.cpp", CLANG_SHIPPED, cases=scale(tier, 40000, 600000), shards=2 if tier == "quick" else 8),
                          asan_unit("c10-asan", "c10.cpp", scale(tier, 6000, 100000), args=["--heap", "1"], shards=4 if tier == "quick" else 16)],
      level="exploration",
      post_cov=c10_post,
@@ -375,7 +385,9 @@ def c09_units(tier):
                  Unit("c09-native-w32-portable", "c09.cpp", W32_PORTABLE, cases=100000, shards=8, args=["--mode", "native"])]
     return extra + [Unit("c09-memcheck", "c09.cpp", SHIPPED, cases=scale(tier, 600, 10000), shards=8 if tier == "quick" else 16, wrapper=VG_EXACT, args=["--mode", "vg"], timeout=3000),
             Unit("c09-native", "c09.cpp", SHIPPED, cases=scale(tier, 25000, 400000), shards=4 if tier == "quick" else 16, args=["--mode", "native"]),
-            asan_unit("c09-asan", "c09.cpp", scale(tier, 6000, 100000), args=["--mode", "native", "--heap", "1"], shards=4 if tier == "quick" else 16)]
+            asan_unit("c09-asan", "c09.cpp", scale(tier, 6000, 100000), args=["--mode", "native", "--heap", "1"], shards=4 if tier == "quick" else 16),
+            # output buffer exactly k * 2^32 bytes after the input buffer (only the touched pages are mapped)
+            Unit("c09-far", "big.cpp", SHIPPED, cases=scale(tier, 400, 5000), shards=4 if tier == "quick" else 16, args=["--family", "far"])]
 
 prop("C09",
      units=c09_units,
@@ -451,7 +463,7 @@ prop("C11",
 def c12_matrix(tier):
     """(name, LibCfg) list; the first entry is the baseline (shipped flags)."""
     cfgs = []
-    simd = [("simd256", []), ("simd128", ["SKINNY_VERIF_VEC256_MATH=0"]),
+    simd = [("simd256", []), ("simd128", ["SKINNY_VERIF_VEC256_MATH=0"]), ("simd256only", ["SKINNY_VERIF_VEC128_MATH=0"]),
             ("nosimd", ["SKINNY_VERIF_VEC128_MATH=0", "SKINNY_VERIF_VEC256_MATH=0"]),
             ("neutral", ["SKINNY_VERIF_VEC128_MATH=0", "SKINNY_VERIF_VEC256_MATH=0", "SKINNY_VERIF_LITTLE_ENDIAN=0"])]
     full = []
@@ -470,7 +482,8 @@ def c12_matrix(tier):
     pick = ["gcc-O3-w64-u1-simd256", "gcc-O3-w32-u0-simd256", "clang-O2-w32-u1-simd128", "gcc-O1-w64-u0-simd128",
             "gcc-O0-w64-u1-nosimd", "clang-O3-w32-u0-nosimd", "gcc-O2-w32-u1-nosimd", "clang-O0-w64-u0-nosimd",
             "gcc-O3-w64-u1-neutral", "clang-O1-w32-u0-neutral", "gcc-O0-w32-u1-neutral", "clang-O3-w64-u0-neutral",
-            "clang-O3-w64-u1-simd256", "gcc-O2-w64-u0-simd256", "clang-O0-w32-u1-simd256", "gcc-O0-w32-u0-simd128"]
+            "clang-O3-w64-u1-simd256", "gcc-O2-w64-u0-simd256", "clang-O0-w32-u1-simd256", "gcc-O0-w32-u0-simd128",
+            "gcc-O3-w64-u1-simd256only", "clang-O2-w32-u0-simd256only"]
     d = dict(full)
     return [(n, d[n]) for n in pick]
 
@@ -487,8 +500,8 @@ prop("C12",
      units=c12_units,
      level="exploration",
      rule=("build configurations = word arithmetic {64, 32 bit} x unaligned fast paths {on, off} x {both SIMD back ends, 128-bit "
-           "only, SIMD stubbed out, SIMD off + byte-order-neutral scalar code} x {gcc, clang} x {-O0..-O3}: all 128 in the thorough "
-           "tier, a 16-configuration subset covering every pair of switch values in the quick tier; each is compiled from the "
+           "only, 256-bit only, SIMD stubbed out, SIMD off + byte-order-neutral scalar code} x {gcc, clang} x {-O0..-O3}: all 160 in the thorough "
+           "tier, an 18-configuration subset covering every pair of switch values in the quick tier; each is compiled from the "
            "current tree (hook H1 overrides) into a shared object and loaded privately; generated programs = union of the "
            "C01-C07 generators plus in-between key lengths, default counters, mid-stream changes, invalid and life-cycle calls; "
            "oracle = transcript (returns, outputs, active schedule images, public fields) of every configuration x available back "
